@@ -25,6 +25,7 @@ class Ctx:
         self.impl = {}
         self.model = {}
         self.quick = tier == 'quick'
+        self.phase = {}           # wall seconds per phase (evidence: stats.phase_seconds)
 
     def add(self, op_and_args, kind='corr', meta=None, diff=True):
         self.n += 1
@@ -50,15 +51,40 @@ class Ctx:
 
 
 def trivial_outcome(o):
-    """an outcome that says nothing about the op (absent / empty / error)"""
-    return o in ('ok =none', 'ok -', 'ok =false', 'err Other', 'ok [', 'ok []') or o.startswith('err ')
+    """an outcome that says nothing about the op (absent / empty / error), or that is no result at all (a panic, a dead or
+    killed process, a case the machinery lost)"""
+    return (o in ('ok =none', 'ok -', 'ok =false', 'err Other', 'ok [', 'ok []') or o.startswith('err ') or crash_outcome(o)
+            or core.infra_outcome(o))
+
+
+def crash_outcome(o):
+    """the call did not return: a panic, a process death (abort:<signal>), or no end within the deadline"""
+    return o == 'panic' or o.startswith('abort:') or o == 'timeout' or o == 'model-stack-overflow'
+
+
+# kinds (set by the generators) whose input is OUTSIDE the precondition of the property: corrupt JSONB buffers handed to a byte
+# walker ('malformed'), JSON text that does not parse handed to compare / convert_to_comparable ('invalid-text'), a key that is
+# not UTF-8 against a text document ('text-keys').  On these a panic of the implementation is not by itself a violation (the
+# model must show the same panic: the diff decides).  On EVERY other kind -- valid documents, and all inputs of the parsers and
+# decoders, whose properties say "never panics" -- a panic / death / hang of the implementation is a violation whatever the model
+# says.  A module may override with INVALID_INPUT_KINDS.
+INVALID_INPUT_KINDS = frozenset(['malformed', 'invalid-text', 'text-keys'])
+
+
+def infra_fail(msg):
+    print('INFRA-ERROR: ' + msg)
+    sys.exit(2)
 
 
 def run_both(ctx, cases):
     lines = ['%s %s' % (c.id, c.line) for c in cases]
+    t = time.time()
     impl = core.run_cases(core.HARNESS_BIN, lines, ctx.pid + '-impl')
+    ctx.phase['run_implementation'] = round(time.time() - t, 1)
     need_model = [l for l, c in zip(lines, cases) if c.diff]
+    t = time.time()
     model = core.run_cases(core.DRIVER_BIN, need_model, ctx.pid + '-model') if need_model else {}
+    ctx.phase['run_model'] = round(time.time() - t, 1)
     return impl, model
 
 
@@ -110,7 +136,10 @@ def main(argv=None):
         core.log('[%s] coq build had failures: %s' % (pid, m[:5]))
     ps = core.props_status(pid)
     if not ps['ok']:
-        broken.append(('proof', 'Props/%s.v does not check: %s %s' % (pid, ps.get('failed_at', ''), ps.get('bad_axioms', ''))))
+        broken.append(('proof', 'Props/%s.v does not check: %s %s%s%s' % (
+            pid, ps.get('failed_at', ''), ps.get('bad_axioms', ''),
+            (' theorems without a following Print Assumptions: %s' % ' '.join(ps['missing_print_assumptions'])) if ps.get('missing_print_assumptions') else '',
+            (' %d Print Assumptions without an answer' % ps['print_assumptions_unanswered']) if ps.get('print_assumptions_unanswered') else '')))
     hy = core.hygiene()
     if hy:
         broken.append(('hygiene', '; '.join(hy[:5])))
@@ -142,20 +171,42 @@ def main(argv=None):
         rp = json.load(open(replay))
         for l in rp.get('cases', []):
             ctx.add(l, kind='replay')
+    ctx.phase['build_and_proofs'] = round(time.time() - t0, 1)
+    t1 = time.time()
     mod.generate(ctx)
+    ctx.phase['generate'] = round(time.time() - t1, 1)
+    # the sizes this check reaches (second review, H2): over every value the generator encoded, and the largest single argument
+    # of a case line (hex: a buffer or a text)
+    sm = dict(gen.SIZE_MAX)
+    sm['largest_case_argument_bytes'] = max([len(a) // 2 for c in ctx.cases for f in c.line.split(' ')[1:] if len(f) > 64 for a in f.split(',')] or [0])
+    sm.update(ctx.stats.get('size_maxima', {}))
+    ctx.stats['size_maxima'] = sm
     impl, model = run_both(ctx, ctx.cases)
     ctx.impl, ctx.model = impl, model
+    invalid_kinds = getattr(mod, 'INVALID_INPUT_KINDS', INVALID_INPUT_KINDS)
 
     # generic correspondence diff
     evals = 0
+    crash_cases = set()
     for c in ctx.cases:
         io = impl.get(c.id, 'missing')
         evals += 1
+        # a case without an outcome, or one the harness could not read, is a failure of the machinery: never agreement
+        if core.infra_outcome(io):
+            infra_fail('case %s %s -> implementation side: %r' % (c.id, c.line[:300], io))
         if c.diff:
             mo = model.get(c.id, 'missing')
-            if mo.startswith('unknown-op') or mo.startswith('driver-failure') or io.startswith('unknown-op'):
-                print('INFRA-ERROR: case %s %s -> impl %r model %r' % (c.id, c.line, io, mo))
-                sys.exit(2)
+            if core.infra_outcome(mo) or mo == 'timeout' or mo.startswith('abort:'):
+                infra_fail('case %s %s -> model side: %r (impl %r)' % (c.id, c.line[:300], mo, io[:200]))
+        # the generic rule (independent of the model and of the per-property judge): the implementation panics, dies or hangs
+        # on an input that is not of an invalid-input kind
+        if crash_outcome(io) and c.kind not in invalid_kinds:
+            crash_cases.add(c.line)
+            ctx.violate('the implementation panics, dies or does not return on an input that is not corrupt (kind=%s)' % c.kind,
+                        case=c.line, kind=c.kind, observed=io, rule='generic: check.py')
+        if crash_outcome(io):
+            ctx.count('crash_outcomes_by_kind', '%s:%s' % (c.kind, io))
+        if c.diff:
             if hasattr(mod, 'normalise_outcome'):
                 io_n, mo_n = mod.normalise_outcome(c, io), mod.normalise_outcome(c, mo)
             else:
@@ -173,15 +224,34 @@ def main(argv=None):
         ctx.count('outcome_class', io.split(' ', 1)[0])
     # property-specific direct checks on the implementation (the "search")
     if hasattr(mod, 'judge'):
-        mod.judge(ctx)
+        t1 = time.time()
+        try:
+            mod.judge(ctx)
+        except core.InfraError as ex:
+            infra_fail(str(ex))
+        ctx.phase['judge'] = round(time.time() - t1, 1)
+    ctx.stats['phase_seconds'] = ctx.phase
+    ctx.stats['runner'] = dict(core.RUN_STATS)
 
     # 6. replay witnesses of open known findings
+    # a witness that fails must fail THE WAY THE FINDING DOES (`known_observed`, a regex): a finding recorded as a stack-overflow
+    # death that now shows as a panic, or a key collision that now shows as an error, is a different defect and is a violation
     for k in open_known:
         still = False
         for w in k.get('witness', []):
             o = core.run_one(core.HARNESS_BIN, 'w ' + w['case'])
+            if core.infra_outcome(o):
+                infra_fail('witness of known finding %s: %s -> %r' % (k['key'], w['case'][:200], o))
             if not re.fullmatch(w['property_requires'], o):
                 still = True
+                ko = w.get('known_observed')
+                if ko is None:
+                    ctx.violate('an open known finding has no `known_observed` pattern: its witness cannot be told from a new failure',
+                                case=w['case'][:300], observed=o[:300], finding=k['key'])
+                elif not re.fullmatch(ko, o):
+                    ctx.violate('the witness of an open known finding fails in a DIFFERENT way than the finding records: ' + k['what_fails'],
+                                case=w['case'][:300], expected='%s (what the property requires) or %s (the known finding)' % (w['property_requires'], ko),
+                                observed=o[:300], finding=k['key'])
         if still:
             known_lines.append('KNOWN-FINDING: property=%s %s [%s]' % (pid, k['what_fails'], k['key']))
         else:
@@ -193,12 +263,18 @@ def main(argv=None):
             continue
         for w in k.get('witness', []):
             o = core.run_one(core.HARNESS_BIN, 'w ' + w['case'])
-            evals_extra = 1
+            if core.infra_outcome(o):
+                infra_fail('witness of fixed finding %s: %s -> %r' % (k['key'], w['case'][:200], o))
             if not re.fullmatch(w['property_requires'], o):
                 ctx.violate('a repaired defect is back: ' + k['what_fails'], case=w['case'], expected=w['property_requires'], observed=o, finding=k['key'])
 
     # 7. verdict
     nviol = len(ctx.violations)
+    if ctx.violations:
+        by = {}
+        for v in ctx.violations:
+            by[v['what'][:160]] = by.get(v['what'][:160], 0) + 1
+        ctx.stats['violations_by_what'] = by          # the replay file keeps the first 20 only
     lines_out = []
     if ctx.violations:
         rp = core.write_replay(pid, 'violation', {
@@ -223,7 +299,7 @@ def main(argv=None):
         'trusted_base': mod.TRUSTED if hasattr(mod, 'TRUSTED') else [],
         'theorems': ps['theorems'], 'axioms_reported': ps['axioms'],
         'evaluations': evals, 'distinct_nontrivial': len(ctx.nontrivial),
-        'rule': getattr(mod, 'RULE', 'generated cases') + ' | counted: distinct case lines (op + arguments) whose implementation outcome is not none / empty / false / error',
+        'rule': getattr(mod, 'RULE', 'generated cases') + ' | counted: distinct case lines (op + arguments) whose implementation outcome is not none / empty / false / error / panic / abort / timeout',
         'samples': samples or ['(no cases)'],
         'broken_obligations': ['%s: %s' % b for b in broken],
         'known_class_hits': ctx.known_hits, 'stats': ctx.stats,
